@@ -82,6 +82,7 @@ def plan(tier):
                                    key_alias=False)[:6]
     if tier == "quick":
         dnav = dnav[::2]
+    dnav += corpus.merge_pack()
     EXTRA.append((dnav, [(p, paths.render(p, "."), paths.render(p, "/"))
                          for p in pnav]))
     bounds["full_vocabulary"] = {"documents": len(dnav), "paths": len(pnav),
